@@ -35,6 +35,7 @@ pub struct RegFn {
     pub idx: usize,
     pub lean: String,
     pub fuel: bool,
+    pub is_extern: bool,
 }
 
 #[derive(Default)]
@@ -51,7 +52,13 @@ impl Registry {
             TargetKind::Fn => {
                 let c = idx.find_fn(&t.rust_path);
                 if c.len() == 1 {
-                    self.fns.insert(c[0], RegFn { idx: c[0], lean: t.lean_name.clone(), fuel: false });
+                    self.fns.insert(c[0], RegFn { idx: c[0], lean: t.lean_name.clone(), fuel: false, is_extern: false });
+                }
+            }
+            TargetKind::Extern => {
+                let c = idx.find_fn(&t.rust_path);
+                if c.len() == 1 {
+                    self.fns.insert(c[0], RegFn { idx: c[0], lean: t.lean_name.clone(), fuel: t.extern_fuel, is_extern: true });
                 }
             }
             TargetKind::Struct => {
@@ -70,6 +77,9 @@ impl Registry {
         // direct loops
         let keys: Vec<usize> = self.fns.keys().copied().collect();
         for k in &keys {
+            if self.fns[k].is_extern {
+                continue;
+            }
             let f = &idx.fns[*k];
             let mut v = LoopFinder { found: false };
             syn::visit::visit_block(&mut v, &f.block);
@@ -79,7 +89,7 @@ impl Registry {
         loop {
             let mut changed = false;
             for k in &keys {
-                if self.fns[k].fuel {
+                if self.fns[k].fuel || self.fns[k].is_extern {
                     continue;
                 }
                 let f = &idx.fns[*k];
@@ -203,6 +213,8 @@ struct Frame {
     /// type of the value carried by `break` (Unit when none)
     val_ty: Ty,
     valued: bool,
+    /// number of `break`s that target this frame
+    breaks: usize,
     /// Lean text of the exit type ε *inside* this frame
     eps: String,
 }
@@ -254,6 +266,10 @@ pub struct Tr<'a> {
     lean_name: String,
     /// text of β per hoisted loop (referenced by the `beta` placeholder)
     betas: Vec<String>,
+    /// `&mut [T]` parameters (read-only use is supported)
+    mut_ref_params: Vec<String>,
+    /// `let p = s.as_ptr();` — p stands for (slice term, slice type)
+    ptr_alias: HashMap<String, (String, Ty)>,
 }
 
 fn ind(lines: Vec<String>, n: usize) -> Vec<String> {
